@@ -363,13 +363,17 @@ func valueFor(r *rng, in, out colDesc) string {
 	case "binary":
 		return pick(r, []string{`"AQ=="`, `"AQAAAA=="`, `"AQAAAAAAAAA="`, `"aGVsbG8="`, `"MTI="`, `"AAE="`, `null`,
 			// valid but non-canonical base64, base64 of base64, the float32 whose shortest text double-rounds
-			`"QR=="`, `"WVdKalpBPT0="`, `"YWJjZA=="`, `"/UOuFQ=="`, longBase64})
+			`"QR=="`, `"WVdKalpBPT0="`, `"YWJjZA=="`, `"/UOuFQ=="`, longBase64,
+			// canonical base64 texts that look like something else (a hex literal, a number, a keyword, a date), and the empty payload
+			`"0xC0FFEE"`, `"0xAB"`, `"0XFF"`, `"1234"`, `"12345678"`, `"true"`, `"null"`, `"TRUE"`, `"Infinity"`, `"2021"`, `"20210924"`, `"abcd"`, `"1e10"`, `"+Inf"`, `"0b11"`, `""`})
 	case "date":
 		return pick(r, []string{`"2021-09-24"`, `"0001-01-01"`, `"9999-12-31"`, `1632518460`, `"2021-09-24T21:21:00Z"`, `null`})
 	case "datetime":
 		return pick(r, []string{`"2021-09-24T21:21:00Z"`, `"2021-09-24T21:21:00+02:00"`, `"2021-09-24T21:21:00.5-03:30"`, `1632518460`, `0`, `"1632518460"`, `"2021-03-28T02:30:00+01:00"`, `null`})
 	case "string":
-		return pick(r, []string{`"a"`, `"12"`, `"true"`, `12`, `1.5`, `true`, `"2021-09-24T21:21:00Z"`, `"é😀"`, `""`, `null`, `"1"`})
+		return pick(r, []string{`"a"`, `"12"`, `"true"`, `12`, `1.5`, `true`, `"2021-09-24T21:21:00Z"`, `"é😀"`, `""`, `null`, `"1"`,
+			// texts that look like something else
+			`"0x10"`, `"1e5"`, `"Infinity"`, `"NaN"`, `"null"`, `" 12"`, `"+5"`, `"1_000"`, `"abcd"`, `"AQ=="`, `"2021-09-24"`, `"0xC0FFEE"`})
 	}
 	return pick(r, c05Values)
 }
